@@ -21,3 +21,6 @@ pub mod events;
 
 /// General purpose utilities.
 pub mod util;
+
+#[cfg(message_io_verif)]
+pub mod verif;
